@@ -115,6 +115,7 @@ fn access(
                 name,
                 left,
                 right,
+                access_left,
                 &constraint.msg,
                 total,
             ),
@@ -150,6 +151,7 @@ fn field_access(
     name: &str,
     accessed: &Expected,
     other: &Expected,
+    access_is_parent: bool,
     msg: &str,
     total: usize,
 ) -> Unified {
@@ -167,7 +169,12 @@ fn field_access(
             .map_err(|errs| access_field_cause(&errs, other, entity_name, name, msg))?;
 
         let field_ty_exp = Expected::new(accessed.pos, &Type { name: field.ty });
-        constraints.push("field access", &field_ty_exp, other);
+        // the type of the field takes the place which the access had in the constraint
+        if access_is_parent {
+            constraints.push("field access", &field_ty_exp, other);
+        } else {
+            constraints.push("field access", other, &field_ty_exp);
+        }
         pushed += 1;
     }
 
